@@ -40,9 +40,9 @@ Theorem C04_tokenize_shape :
                N.of_nat (length ts) <= max_tok.
 Proof. exact tokenize_shape. Qed.
 
-(* size limit, for every value of the limits: above it E1006 at 1:0 ... *)
+(* size limit, for every value of the limits: above it E1006 at 1:1 ... *)
 Theorem C04_size_limit :
-  forall max_in max_tok bs, max_in < N.of_nat (length bs) -> tokenize_with max_in max_tok bs = Err E_InputTooLarge 1 0.
+  forall max_in max_tok bs, max_in < N.of_nat (length bs) -> tokenize_with max_in max_tok bs = Err E_InputTooLarge 1 1.
 Proof. exact size_limit_reject. Qed.
 
 (* ... at or below it (in particular exactly at it) the size limit plays no role in the result *)
